@@ -448,8 +448,16 @@ func specC13(r *hlib.Rng, res *hlib.Result) (string, []string) {
 			return "spec-c13-getwritelog-error: " + err.Error(), trace
 		}
 		wlDB = sortLog(wlDB)
-		if logToString(wlDB) != logToString(wlCommit) {
-			return fmt.Sprintf("spec-c13-db-log-differs: Commit returned %s, GetWriteLog served %s", logToString(wlCommit), logToString(wlDB)), trace
+		// The served log must consist of entries Commit reported (entries for keys whose value
+		// did not change may be left out; (a) below checks that it still reaches the second root).
+		reported := map[string]bool{}
+		for _, e := range wlCommit {
+			reported[logToString(writelog.WriteLog{e})] = true
+		}
+		for _, e := range wlDB {
+			if !reported[logToString(writelog.WriteLog{e})] {
+				return fmt.Sprintf("spec-c13-db-log-differs: Commit returned %s, GetWriteLog served %s", logToString(wlCommit), logToString(wlDB)), trace
+			}
 		}
 	}
 	res.Count("spec:c13-transitions")
@@ -631,15 +639,86 @@ func runSpecOnce(kind string, state uint64, res *hlib.Result) (d string, trace [
 			d, trace = specC03(r, res)
 		case "c13":
 			d, trace = specC13(r, res)
+		case "c03nilkey":
+			d, trace = specNilKey(res)
+		case "c03nilval":
+			d, trace = specNilValue(res)
 		}
 	}()
 	return
+}
+
+// specNilKey: the empty key given as a nil slice must behave like the empty key given as an empty
+// non-nil slice (the API takes []byte and accepts both).
+func specNilKey(res *hlib.Result) (string, []string) {
+	res.Count("spec:c03-nil-key")
+	trace := []string{"new mem", "insert <nil> 76", "insert 01 77"}
+	t := mkvs.New(nil, nil, node.RootTypeState)
+	defer t.Close()
+	if err := t.Insert(ctx, nil, []byte("v")); err != nil {
+		return "spec-c03-error: " + err.Error(), trace
+	}
+	if err := t.Insert(ctx, []byte{1}, []byte("w")); err != nil {
+		return "spec-c03-error: " + err.Error(), trace
+	}
+	items, err := iterate(t, []byte{}, 10)
+	if err != nil {
+		return "spec-c03-error: " + err.Error(), trace
+	}
+	if showItems(items) != "-:76,01:77" {
+		return "spec-c03-nil-key: after Insert(nil,\"v\"), Insert(01,\"w\") iteration yields " + showItems(items) + ", expected -:76,01:77", append(trace, "iter -")
+	}
+	if _, _, err = t.Commit(ctx, testNs, 0); err != nil {
+		return "spec-c03-error: " + err.Error(), trace
+	}
+	v, err := t.Get(ctx, []byte{})
+	if err != nil {
+		return "spec-c03-error: " + err.Error(), trace
+	}
+	if string(v) != "v" {
+		return "spec-c03-nil-key: after Insert(nil,\"v\") and Commit, Get([]byte{}) returns " + hxOpt(v) + ", expected 76", append(trace, "commit", "get -")
+	}
+	if err = t.Insert(ctx, []byte{}, []byte("x")); err != nil {
+		return "spec-c03-error: " + err.Error(), trace
+	}
+	if v, _ = t.Get(ctx, nil); string(v) != "x" {
+		return "spec-c03-nil-key: after Insert([]byte{},\"x\") Get(nil) returns " + hxOpt(v), append(trace, "insert - 78", "get <nil>")
+	}
+	return "", nil
+}
+
+// specNilValue: a nil value is the empty value (tree.Insert says so); an overlay must agree.
+func specNilValue(res *hlib.Result) (string, []string) {
+	res.Count("spec:c03-nil-value")
+	trace := []string{"new mem", "onew", "insert 01 <nil>", "get 01"}
+	t := mkvs.New(nil, nil, node.RootTypeState)
+	defer t.Close()
+	o := mkvs.NewOverlay(t)
+	if err := o.Insert(ctx, []byte{1}, nil); err != nil {
+		return "spec-c03-error: " + err.Error(), trace
+	}
+	v, _ := o.Get(ctx, []byte{1})
+	if _, err := o.Commit(ctx); err != nil {
+		return "spec-c03-error: " + err.Error(), trace
+	}
+	v2, _ := t.Get(ctx, []byte{1})
+	if (v == nil) != (v2 == nil) {
+		return fmt.Sprintf("spec-c03-overlay-nil-value: overlay Insert(01,nil): overlay Get says present=%v, after overlay Commit the tree says present=%v", v != nil, v2 != nil), append(trace, "ocommit", "get 01")
+	}
+	return "", nil
 }
 
 func runSpec(rng *hlib.Rng, n int, focus string, res *hlib.Result) {
 	seen := map[string]bool{}
 	for _, f := range res.Failures {
 		seen[f.Sig] = true
+	}
+	if focus == "c03" && n > 0 {
+		runSpecCase("c03nilkey", 0, res)
+		runSpecCase("c03nilval", 0, res)
+		for _, f := range res.Failures {
+			seen[f.Sig] = true
+		}
 	}
 	for i := 0; i < n && len(res.Failures) < 10; i++ {
 		cr := rng.Fork()
